@@ -271,19 +271,24 @@ theorem C05_flex_count (ms : Members) (sz : Nat) (toks : List ITok) (p : Init ×
 /-- **C05 (flexible array member: size of the object).**  Whatever tree `init` the parser has built for a struct type with flexible
     array member `elem[]`: when the member's node has `n` elements (`flexResolved`: `n` = 0 if no initializer reached it), the type
     `initializer()` gives the object has `sizeof(struct) + n · sizeof(elem)` bytes, and the static object (`write_gvar_data` into
-    `calloc(1, var->ty->size)`, emitted by `emit_data`) and the automatic object (ND_MEMZERO over `var->ty->size` bytes, then the
-    assignments) are the same `sizeof(struct) + n · sizeof(elem)` cells. -/
+    `calloc(1, var->ty->size)`) and the automatic object (ND_MEMZERO over `var->ty->size` bytes, then the assignments) are the
+    same `sizeof(struct) + n · sizeof(elem)` cells; and what `emit_data` prints for the image assembles to exactly these cells
+    (when the relocations are ascending and disjoint, as in `C05_emit`). -/
 theorem C05_flex_size (ms : Members) (sz : Nat) (init : Init) (el : Ty) (n : Nat)
     (hfl : flexResolved ms init.children = some (el, n))
     (hw : wf (resolveTy (.struct ms sz true) init) = true) (hf : fits init (resolveTy (.struct ms sz true) init) = true)
     (hel : wf el = true) :
     (resolveTy (.struct ms sz true) init).sz = sz + el.sz * n ∧
-    ∃ cells, staticObject init (resolveTy (.struct ms sz true) init) = .ok cells ∧
-      autoObject init (resolveTy (.struct ms sz true) init) = .ok cells ∧ cells.length = sz + el.sz * n := by
+    ∃ im, gvarInit init (resolveTy (.struct ms sz true) init) = .ok im ∧
+      staticObject init (resolveTy (.struct ms sz true) init) = .ok im.cells ∧
+      autoObject init (resolveTy (.struct ms sz true) init) = .ok im.cells ∧ im.cells.length = sz + el.sz * n ∧
+      (RelocsFrom (sz + el.sz * n) 0 im.relocs →
+        assemble (emitData im (sz + el.sz * n)) = im.cells ∧ (assemble (emitData im (sz + el.sz * n))).length = sz + el.sz * n) := by
   have hsize := resolveTy_flex_size ms sz init el n hfl (wf_size_nonneg el hel)
   obtain ⟨im', hs, ha, hlen, hrel, _, _⟩ := both_from_leaves _ init hw hf
-  refine ⟨hsize, im'.cells, by simp only [staticObject, hs]; rfl, ha, ?_⟩
-  rw [cells_length im' _ hlen hrel, hsize]
+  rw [hsize] at hlen hrel
+  exact ⟨hsize, im', hs, by simp only [staticObject, hs]; rfl, ha, cells_length im' _ hlen hrel,
+    fun hr => C05_emit im' _ hlen hr⟩
 
 /-- non-vacuity: `struct { int a; struct { int x, y; } f[]; } = { 1, 1, 1, { 1 }, 1 }`: three elements, 4 + 3·8 = 28 bytes in both
     storage classes -/
@@ -293,6 +298,11 @@ example : ((parseInit scopeG [.lbrace, one, .comma, one, .comma, one, .comma, .l
         ((staticObject p.1 (resolveTy scopeG p.1)).toOption.map (·.length)),
         ((autoObject p.1 (resolveTy scopeG p.1)).toOption.map (·.length))))) = some (some 3, true, true, some 28, some 28) := by
   decide +kernel
+example : (match parseInit scopeG [.lbrace, one, .comma, one, .comma, one, .comma, .lbrace, one, .rbrace, .comma, one, .rbrace] with
+    | .ok p => (match gvarInit p.1 (resolveTy scopeG p.1) with
+      | .ok im => decide (RelocsFrom 28 0 im.relocs)
+      | .error _ => false)
+    | .error _ => false) = true := by decide +kernel
 
 /-- **C05 (the relocation cursor of `write_gvar_data`).**  `Model/InitCursor.lean` keeps the relocation list as the C code does - a
     linked list behind `head` and the cursor `cur`; `cur->next = rel` drops whatever hung behind `cur`.  When every arm hands on
